@@ -378,7 +378,7 @@ namespace Esdt
 
 /-! ### the message the sender emits is worth what was debited -/
 
-theorem nftKey_zero (k : Bytes) : nftKey k 0 = k := by simp [nftKey, beBytes_zero]
+theorem nftKey_nonce0 (k : Bytes) : nftKey k 0 = k := by simp [nftKey, beBytes_zero]
 
 theorem itemContrib_payload (p : Bytes × Token) (hok : TokOK p.2)
     (hlen : p.2.md.isSome = true → (encToken p.2).length < two63) (k : Bytes) :
@@ -401,7 +401,7 @@ theorem itemContrib_payload (p : Bytes × Token) (hok : TokOK p.2)
   | none =>
     refine ⟨tok, [0], beBytes (t.value.getD 0).natAbs, by simp [payloadItem, hm], ?_, ?_⟩
     · have h0 : ¬ (u64 (beNat [0]) > 0) := by decide
-      simp only [itemContrib, h0, if_false, beNat_beBytes, mdNonce, hm, nftKey_zero, hq, Option.getD_some]
+      simp only [itemContrib, h0, if_false, beNat_beBytes, mdNonce, hm, nftKey_nonce0, hq, Option.getD_some]
       split
       · omega
       · rfl
